@@ -59,6 +59,7 @@ var preludeDefs = map[string]string{
 	"map_len":        "(declare-fun map_len (Int Int) Int)",
 	"nlmul":          "(declare-fun nlmul (Int Int) Int)",
 	"shared_builtin": "(declare-fun shared_builtin (Int) Bool)",
+	"bstr":           "(declare-fun bstr (Int Int Int) Str)",
 	"json_doc":       "(declare-fun json_doc (Int Int) Int)",
 	"json_int":       "(declare-fun json_int (Int Int) Int)",
 	"json_flt":       "(declare-fun json_flt (Int Int) Flt)",
@@ -68,6 +69,7 @@ var preludeDefs = map[string]string{
 // defs that depend on others
 var preludeDeps = map[string][]string{
 	"go_mod": {"go_div"},
+	"bstr":   {"str_sub", "str_cat", "str_len"},
 }
 
 var preludeAxioms = map[string][]string{
@@ -80,6 +82,10 @@ var preludeAxioms = map[string][]string{
 	},
 	"str_at": {
 		"(assert (forall ((s Str) (i Int)) (! (and (<= 0 (str_at s i)) (<= (str_at s i) 255)) :pattern ((str_at s i)))))",
+	},
+	"bstr": {
+		"(assert (forall ((h Int) (p Int) (n Int) (a Int) (b Int)) (! (=> (and (<= 0 a) (<= a b) (<= b n)) (= (str_sub (bstr h p n) a b) (bstr h (+ p a) (- b a)))) :pattern ((str_sub (bstr h p n) a b)))))",
+		"(assert (forall ((h Int) (p Int) (a Int) (q Int) (b Int)) (! (=> (and (= q (+ p a)) (>= a 0) (>= b 0)) (= (str_cat (bstr h p a) (bstr h q b)) (bstr h p (+ a b)))) :pattern ((str_cat (bstr h p a) (bstr h q b))))))",
 	},
 	"rng_draw": {
 		"(assert (forall ((s Int) (k Int)) (! (and (<= 0 (rng_draw s k)) (<= (rng_draw s k) 18446744073709551615)) :pattern ((rng_draw s k)))))",
